@@ -4,7 +4,7 @@
     X(nop) X(create) X(join) X(free) X(yield) X(yieldn) X(fset) X(fwait)       \
     X(lock) X(lock_low) X(lock_high) X(spinlock) X(trylock) X(unlock)         \
     X(unlock_se) X(unlock_de) X(work)                                         \
-    X(awaitvar) X(awaitvar_t) X(advance) X(cwait) X(ctimedwait) X(cwait_rej) X(csignal)      \
+    X(awaitvar) X(awaitvar_t) X(varadd) X(advance) X(cwait) X(ctimedwait) X(cwait_rej) X(csignal)      \
     X(cbroadcast) X(csigloop) X(bwait) X(bwait_rej) X(breinit) X(evset)       \
     X(evwait) X(evwait_rej) X(evtest) X(evreset) X(fuset) X(fuwait)           \
     X(fuwait_rej) X(futest) X(fureset) X(rdlock) X(wrlock) X(rwunlock)        \
@@ -132,6 +132,14 @@ static void *next_uarg(actor *u)
 static void check_joined(actor *a, actor *u, const char *what)
 {
     (void)a;
+    if (u->cancelled) {
+        /* a cancelled unit stops at a scheduling point: its function never
+         * returns; it must simply never execute another op from now on */
+        u->pc_at_join = u->pc_heap;
+        u->join_seen = 1;
+        stat_add("joined_cancelled", 1);
+        return;
+    }
     if (u->ends != u->incarnation || u->running)
         viol("%s of u%d returned before the unit terminated (starts=%d ends=%d inc=%d running=%d)",
              what, u->id, u->starts, u->ends, u->incarnation, u->running);
@@ -319,6 +327,9 @@ static void exec_op(actor *a, op_t *o)
     switch (o->code) {
         case OP_awaitvar:
             op_awaitvar(a, a0, o->a[1]);
+            break;
+        case OP_varadd:
+            var_add(a0, o->a[1]);
             break;
         case OP_awaitvar_t:
             op_awaitvar_t(a, a0, o->a[1], o->a[2]);
@@ -606,6 +617,9 @@ static void final_unit_checks(const char *when)
         if (u->cancelled) {
             if (u->ends > u->incarnation || u->starts > u->incarnation)
                 viol("cancelled unit u%d ran too often", i);
+            if (u->join_seen && u->pc_heap != u->pc_at_join)
+                viol("cancelled unit u%d executed ops after its join/free had returned (pc %d -> %d)",
+                     i, u->pc_at_join, u->pc_heap);
             continue;
         }
         if (u->starts != u->incarnation || u->ends != u->incarnation || u->running)
